@@ -151,14 +151,15 @@ def main(argv):
     from twverif import import_target
     from twverif.monitors import audit, fakenet
     audit.install(spec.get("audit_log"))
+    # virtual pauses: installed BEFORE the library is imported, so that `from time import sleep` binds it as well
+    sleeps = []
+    real_sleep = time.sleep
+    time.sleep = lambda s: sleeps.append(float(s))
     import_target()
     import numpy as np
     import traffic_weaver.datasets as ds
     import traffic_weaver.datasets._base as base
     net = fakenet.install()
-    sleeps = []
-    real_sleep = time.sleep
-    time.sleep = lambda s: sleeps.append(float(s))
 
     # --- recording / substituting wrapper around the public remote loader (rebound by identity in every module)
     captured = []
@@ -257,6 +258,7 @@ def main(argv):
         r0 = len(net.requests)
         s0 = len(sleeps)
         c0 = len(captured)
+        t0 = time.monotonic()
         if kp is not None and (kill is None or kill.get("step", si) == si):
             kp.count = 0
             kp.active = True
@@ -328,6 +330,7 @@ def main(argv):
             res["events_counted"] = kp.count
         res["requests"] = net.requests[r0:]
         res["sleeps"] = sleeps[s0:]
+        res["elapsed"] = time.monotonic() - t0      # real time: pauses taken by other means than time.sleep show here
         res["audit"] = audit.since(m0)
         res["captured"] = captured[c0:]
         results.append(res)
